@@ -241,14 +241,21 @@ pub fn run_case(c: &Case, r: &mut Report, prop: &str) {
         _ => Expect::Accept,
     };
     let mut rng = Rng::new(now0 as u64, "c11-nonce", r.evaluations);
-    let token = match core_seal(c.p, &c.key, &rng.bytes(32), &payload, None, None).0 {
+    // every fifth token carries a footer and (v3/v4) an implicit assertion, which the default parser is then given through its
+    // setters AFTER PasetoParser::default() (in either order): configuring the parser must not cost it its time validators
+    let with_extras = r.evaluations % 5 == 0;
+    let (tf, ta) = if with_extras { (Some("time-probe-footer"), if c.p.has_assertion() { Some("time-probe-assertion") } else { None }) } else { (None, None) };
+    let token = match core_seal(c.p, &c.key, &rng.bytes(32), &payload, tf, ta).0 {
         Out::Ok(t) => t,
         o => {
             r.inconclusive.push(format!("could not seal a probe token for {}: {}", c.p.name(), o.brief()));
             return;
         }
     };
-    let mut cfg = ParserCfg { default_parser: true, ..Default::default() };
+    let mut cfg = ParserCfg { default_parser: true, footer: tf.map(|s| s.to_string()), assertion: ta.map(|s| s.to_string()), assertion_first: r.evaluations % 10 == 0, ..Default::default() };
+    if with_extras {
+        r.count("default parser configured with footer / implicit assertion after default()");
+    }
     if c.also_check_claim {
         // ... and an expectation on ANOTHER claim that the token satisfies (the time validators must still all run)
         cfg.expected.push(Claim::Custom("data".into(), json!("time-claim probe")));
@@ -857,4 +864,4 @@ pub fn replay(prop: &str, case: &Value) -> Report {
     r
 }
 
-pub const RULE: &str = "payloads {\"exp\"|\"nbf\": value} are crafted at the core layer and parsed with PasetoParser::default(). Values: 21 instants (now-2s, -1min, -1h, -1d, -1y, 2000-01-01, 1971; now+60s, +1h, +1d, +1y, 2999, 9000-01-01, and now + {2^31, 2^32 seconds, 2^63 ns -/+ 1 min, 475 y, 2^64 ns, 3170 y}; plus the edges of the four-digit-year range: 0000-01-01, 0000-12-31, 0001-01-01 and instants at / just beyond 9999-12-31T23:59:59Z rendered with the (negative) offsets that keep the local year at 9999) rendered by the harness's own calendar arithmetic with EVERY UTC offset -23:59..+23:59 x 0..9 fractional digits (strict grammar; plus fractions of 10..40 digits on a sample of offsets), 'Z', '-00:00' and lenient variants (space / 't' separators and 'z', each also combined with 'Z') — full space on v4.local (thorough: all four local protocols and v2/v4 public), 500 (thorough 60000) sampled renderings on each other protocol; a catalogue of ~90 non-timestamp values (numbers, booleans, arrays, objects, empty string, near-miss date strings — impossible months/days/hours, ISO 8601 forms that RFC 3339 excludes — each in the future (2999) and in the past (2001)) plus random text; null; absent; a sample of the strict cases and the grid once more with check_claim(<the token's own value>) registered on the default parser, and every 61st case of any class with check_claim on ANOTHER claim that the token satisfies (the time checks must still all apply); every 29th case once more with the payload spelled as another implementation might (\\u escapes in the member names exp/nbf, \\u escapes inside the values, insignificant white space: same JSON value, same verdict); C12 additionally the 3x3 grid of (exp, nbf) in {past, future, absent} x 3 offsets. Plus a VIRTUAL-CLOCK sweep through the hook verif::set_now: 255 (thorough 3055) values of 'now' (year/leap-day boundaries, the last and first second of a minute / hour / day / month / year, 2^31/2^32 s, the i64-nanosecond limit 2262-04-11, up to year 8999, random, odd sub-second parts) x 27 distances from +-1 ns to +-950 years x sampled offsets, all with 9 fraction digits: exp accepted iff instant > now, nbf accepted iff instant < now (== now not decided). Plus clock-progress histories on all 8 protocols: a claim 1.5 s in the future is parsed, 2.6 s pass, and the SAME parser object (and a fresh one) must now give the opposite answer — also when the last parse before the pause was a REFUSED one (a clock reading kept from a failing parse must not judge the next). Oracle: instant known by construction; strict renderings and renderings with a ' ' separator (named in the property's quantifier) decide both ways, the other lenient renderings ('t', 'z') must merely never be accepted when out of window. distinct_nontrivial = distinct (protocol, outcome, class, instant, offset, fraction length, style) tuples";
+pub const RULE: &str = "payloads {\"exp\"|\"nbf\": value} are crafted at the core layer and parsed with PasetoParser::default(). Values: 21 instants (now-2s, -1min, -1h, -1d, -1y, 2000-01-01, 1971; now+60s, +1h, +1d, +1y, 2999, 9000-01-01, and now + {2^31, 2^32 seconds, 2^63 ns -/+ 1 min, 475 y, 2^64 ns, 3170 y}; plus the edges of the four-digit-year range: 0000-01-01, 0000-12-31, 0001-01-01 and instants at / just beyond 9999-12-31T23:59:59Z rendered with the (negative) offsets that keep the local year at 9999) rendered by the harness's own calendar arithmetic with EVERY UTC offset -23:59..+23:59 x 0..9 fractional digits (strict grammar; plus fractions of 10..40 digits on a sample of offsets), 'Z', '-00:00' and lenient variants (space / 't' separators and 'z', each also combined with 'Z') — full space on v4.local (thorough: all four local protocols and v2/v4 public), 500 (thorough 60000) sampled renderings on each other protocol; a catalogue of ~90 non-timestamp values (numbers, booleans, arrays, objects, empty string, near-miss date strings — impossible months/days/hours, ISO 8601 forms that RFC 3339 excludes — each in the future (2999) and in the past (2001)) plus random text; null; absent; a sample of the strict cases and the grid once more with check_claim(<the token's own value>) registered on the default parser, and every 61st case of any class with check_claim on ANOTHER claim that the token satisfies (the time checks must still all apply); every fifth token carries a footer and (v3/v4) an implicit assertion that the default parser is given through its setters after default(), in either order; every 29th case once more with the payload spelled as another implementation might (\\u escapes in the member names exp/nbf, \\u escapes inside the values, insignificant white space: same JSON value, same verdict); C12 additionally the 3x3 grid of (exp, nbf) in {past, future, absent} x 3 offsets. Plus a VIRTUAL-CLOCK sweep through the hook verif::set_now: 255 (thorough 3055) values of 'now' (year/leap-day boundaries, the last and first second of a minute / hour / day / month / year, 2^31/2^32 s, the i64-nanosecond limit 2262-04-11, up to year 8999, random, odd sub-second parts) x 27 distances from +-1 ns to +-950 years x sampled offsets, all with 9 fraction digits: exp accepted iff instant > now, nbf accepted iff instant < now (== now not decided). Plus clock-progress histories on all 8 protocols: a claim 1.5 s in the future is parsed, 2.6 s pass, and the SAME parser object (and a fresh one) must now give the opposite answer — also when the last parse before the pause was a REFUSED one (a clock reading kept from a failing parse must not judge the next). Oracle: instant known by construction; strict renderings and renderings with a ' ' separator (named in the property's quantifier) decide both ways, the other lenient renderings ('t', 'z') must merely never be accepted when out of window. distinct_nontrivial = distinct (protocol, outcome, class, instant, offset, fraction length, style) tuples";
